@@ -173,3 +173,19 @@ def warm(gen_inner, run_inner, n=60):
                 make_environ('POST', '/w/1', stream=io.BytesIO(b'zz\r\n'), chunked=True),
                 make_environ('GET', '/w/\xff')):
         call_app(app, env)
+
+
+def solo_steps(inner_run, inner, **kw):
+    """Number of traced steps of the case served by one scheduled thread alone."""
+    r = run(inner_run, {'twin': inner, 'n': 1, 'plan': {'mode': 'explicit', 'first': 0, 'switches': []}}, **kw)
+    return r['steps'] - sum(0 for _ in ())  # steps of the inner oracle are included; used only as an upper bound
+
+
+def sweep(inner_run, inner, *, max_steps=1500, **kw):
+    """Exhaustive single pre-emption: thread 0 is pre-empted exactly once, at every traced step s of its solo
+    run, thread 1 serves the same request completely, thread 0 resumes."""
+    n = solo_steps(inner_run, inner, **kw)
+    if n > max_steps:
+        return
+    for st in range(1, n + 1):
+        yield {'twin': inner, 'n': 2, 'plan': {'mode': 'explicit', 'first': 0, 'switches': [[st, 1]]}}
